@@ -246,7 +246,7 @@ func checkC18(c *vlib.Ctx) (string, string) {
 	hist := map[string]int{}
 	for li, l := range cfgs {
 		for di, dbg := range []bool{false, true} {
-			for _, route := range []int{0, 2 + (li+di)%8} { // a fresh middleware and one other construction route per cell
+			for _, route := range []int{0, 2 + (li*2+di)%10} { // a fresh middleware and one other construction route per cell
 				h, err := c18Build(l, dbg, route)
 				if err != nil {
 					ck.Report(c18Case{Cfg: l, Route: route}, vlib.Failf("configuration of the C18 alphabet rejected: %v", err))
